@@ -63,6 +63,24 @@ def impl_run(case):
         seen.append(None)
         return _num(spec[1])
 
+    if o == 'mkstr':
+        import quantity
+        u = units[op['u']]
+        txt = op['s'] + ' ' + u.symbol
+        how = op.get('how', 'generic')
+        if how == 'generic':
+            res = W.guarded(lambda: quantity.Quantity(txt))
+        else:
+            res = W.guarded(lambda: u.qty_cls(txt))
+        return {'ops': [], 'res': res}
+    if o in ('quantize', 'round'):
+        x = operand(op['x'])
+        if o == 'round':
+            return {'ops': seen, 'res': W.guarded(lambda: round(x, op['nd']))}
+        qn = operand(op['y'])
+        rm = W.rounding_enum(op.get('rm'))
+        return {'ops': seen, 'res': W.guarded(
+            lambda: x.quantize(qn, rm) if rm is not None else x.quantize(qn))}
     if o == 'mk':
         n, u = _num(op['n']), units[op['u']]
         cls = classes.get(op.get('cls')) if op.get('cls') else None
@@ -161,7 +179,19 @@ def coq_case(case, r):
         seen.pop(0)
         return f"(OpNum {cq(num_value(spec[1]))})"
 
-    if o == 'mk':
+    if o == 'mkstr':
+        t = f"QMk {cq(F(op['v']))} {views.coq(op['u'])}"
+    elif o == 'quantize':
+        isdec = seen[0]['repr'] == 'Decimal'
+        a, u = qv(op['x'])
+        b, v = qv(op['y'])
+        rm = 'None' if not op.get('rm') else f"(Some {op['rm']})"
+        t = f"QQuantize {cbool(isdec)} {cq(a)} {u} {cq(b)} {v} {rm}"
+    elif o == 'round':
+        isdec = seen[0]['repr'] == 'Decimal'
+        a, u = qv(op['x'])
+        t = f"QRound {cbool(isdec)} {cq(a)} {u} ({op['nd']})%Z"
+    elif o == 'mk':
         t = f"QMk {cq(num_value(op['n']))} {views.coq(op['u'])}"
     elif o == 'convert':
         a, u = qv(op['x'])
